@@ -315,6 +315,7 @@ func VH04a_resend() {
 	ntx := 1
 	finished := false // answered / cancelled
 	carrier := first.pipe
+	latestAt := first.at // when the request was last handed to a connection
 	for e := 0; e < E; e++ {
 		ev := verif.Choice("ev", 4)
 		dropCaused := false
@@ -376,7 +377,11 @@ func VH04a_resend() {
 			// 2. never sooner than the retry interval unless caused by connection loss / new peer
 			if timerFired {
 				verif.Assert(verif.Now() >= first.at+retry, lab+"/retry-timer-resend-too-early")
+				// ... and not sooner than one interval after the latest transmission either: a re-send
+				// caused by a connection loss restarts the interval (one retry chain, not one per loss)
+				verif.Assert(verif.Now() >= latestAt+retry, lab+"/retry-timer-resend-sooner-than-interval-after-latest-transmission")
 			}
+			latestAt = verif.Now()
 		}
 		// the connection that carried the latest transmission (global order from the transport log)
 		for _, ev := range vt.T.Log {
